@@ -1,7 +1,10 @@
 #!/bin/bash
-# usage: runseed.sh <seedname> <PROP>...  -- apply a seeded change to /repo, run the checks, undo it
+# usage: runseed.sh <seedname> <PROP>...  -- apply a seeded change to /repo, run the checks, undo it (reverse-apply; untracked files are left alone)
 S=$1; shift
-[ -z "$(git -C /repo status --porcelain)" ] || { echo "/repo is dirty: commit first"; exit 2; }
+git -C /repo diff --quiet || { echo "/repo has uncommitted changes to tracked files: commit first"; exit 2; }
 cd /repo && git apply /verif/seeded/$S/patch.diff || exit 2
-for P in "$@"; do (cd /verif && ./bin/govc check $P 2>&1 | grep -v "^KNOWN" | tail -${TAILN:-4}; echo "exit=$?"); done
-git -C /repo checkout -- . ; git -C /repo status --short
+for P in "$@"; do
+  case $P in C16|C17) BIN=govframe;; *) BIN=govc;; esac
+  (cd /verif && ./bin/$BIN check $P 2>&1 | grep -v "^KNOWN" | tail -${TAILN:-4})
+done
+git -C /repo apply -R /verif/seeded/$S/patch.diff; git -C /repo diff --quiet && echo "(repo restored)"
